@@ -401,9 +401,23 @@ class Gen:
         if self.size == "tiny":          # pickles of 2..12 bytes: shorter than the longest magic number
             self.kinds["tiny"] += 1
             return r.choice(self.TINY)
-        if isinstance(self.size, dict):  # {"tiny": index}
+        if isinstance(self.size, dict) and "tiny" in self.size:  # {"tiny": index}
             self.kinds["tiny"] += 1
             return self.TINY[self.size["tiny"] % len(self.TINY)]
+        if isinstance(self.size, dict) and "zeros" in self.size:
+            # several MiB of one repeated value: deflate reaches ~1000:1, so ONE 8 KiB compressed block inflates to MiBs
+            self.kinds["compressible"] += 1
+            n = self.size.get("mib", 6) * 1024 * 1024 + r.choice([-1, 0, 1, 4097])
+            kind = self.size["zeros"]
+            if kind == "bytes":
+                big = bytes(n)
+            elif kind == "bytearray":
+                big = bytearray(n)
+            elif kind == "str":
+                big = "a" * n
+            else:
+                big = [0] * (n // 4)                 # pickled as K\x00 K\x00 ...
+            return [big, {"tail": "after the big value", "same": big if kind != "list" else None}]
         parts = [self.obj(4) for _ in range(r.randrange(1, 5))]
         sz = self.size
         delta = r.choice([-3, -1, 0, 1, 2, 17])
